@@ -1,4 +1,4 @@
-use crate::{constraints::props::{Propagate, Prune}, variables::{VarId, Val}, variables::views::{Context, View}};
+use crate::{constraints::props::{Propagate, Prune}, variables::VarId, variables::views::{Context, View}};
 
 /// Global maximum constraint: `result = max(vars...)`.
 /// This constraint enforces that the result variable equals the maximum value among all input variables.
@@ -88,61 +88,11 @@ impl Prune for Max {
             }
         }
 
-        // Step 6: Additional propagation - if only one variable can achieve the current maximum,
-        // we might be able to tighten bounds further
-        let current_max = result_max_updated;
-        let mut vars_that_can_be_max = Vec::new();
-
-        for &var in &self.vars {
-            let var_min = var.min(ctx);
-            let var_max = var.max(ctx);
-            
-            if var_min <= current_max && current_max <= var_max {
-                vars_that_can_be_max.push(var);
-            }
-        }
-
-        // If all variables except those that can be maximum have a maximum < current_max,
-        // we can potentially tighten the result's lower bound
-        let mut prev_maximum = None;
-        for &var in &self.vars {
-            let var_max = var.max(ctx);
-            
-            if var_max < current_max {
-                prev_maximum = Some(match prev_maximum {
-                    None => var_max,
-                    Some(current) => if var_max > current { var_max } else { current },
-                });
-            }
-        }
-
-        // If we have variables that can't be the maximum, use their maximums to bound result
-        if let Some(prev_max) = prev_maximum {
-            if vars_that_can_be_max.len() == 1 {
-                // Only one variable can achieve the maximum
-                let only_max_var = vars_that_can_be_max[0];
-                let var_min = only_max_var.min(ctx);
-                
-                // The result can't be smaller than this variable's minimum
-                // (since it's the only one that can be maximum)
-                let new_result_min = if var_min > prev_max { var_min } else { 
-                    // Take the maximum of var_min and (prev_max + 1) if applicable
-                    match (var_min, prev_max) {
-                        (Val::ValI(min_i), Val::ValI(prev_i)) => {
-                            Val::ValI(if min_i > prev_i + 1 { min_i } else { prev_i + 1 })
-                        },
-                        (Val::ValF(min_f), Val::ValF(prev_f)) => {
-                            // For floats, we can use a very small epsilon
-                            let epsilon = f64::EPSILON;
-                            Val::ValF(if min_f > prev_f + epsilon { min_f } else { prev_f + epsilon })
-                        },
-                        _ => var_min, // Mixed types - keep current min
-                    }
-                };
-                
-                let _min = self.result.try_set_min(new_result_min, ctx)?;
-            }
-        }
+        // Note: no further tightening of `result` is possible from bounds alone.  In particular
+        // `result > max{var.max | var.max < result.max}` does not follow when a single variable
+        // can reach `result.max`: that variable may itself take a smaller value (v in 1..10,
+        // w = 5, result = max(v, w) has solutions with result = 5).  `result >= max(var.min)`
+        // is already enforced by step 2.
 
         Some(())
     }
